@@ -466,3 +466,84 @@ T("C11", "twin-cache-hash-walrus", F, "", "", edits=[
 M("C11", "cache-key-walrus-leaves-only", F, "", "", "C11.R2", edits=[
     (F, EARLY, '        if self._dict_hash == (tree_key := hash(tuple(self.tree.scan_values(lambda v: isinstance(v, Token))))):\n            return self._dict_cache\n        line = []\n'),
     (F, TAIL, '        self._dict_hash = tree_key\n        self._dict_cache = dict(properties)\n        return self._dict_cache\n')])
+
+# ------------------------------------------------------------------------------------------------ wave 7
+# R10: every profile owns the tree it reports.  The object stored as `<profile>.tree` is made for that profile (the result of a
+# parse, a Tree(..) with a list of its own, a deep copy); an object that exists once per process - the result of a memoised
+# function, an entry of a module-level cache, a module-level children list - is shared by the profiles, and the builder methods
+# (which append in place) change all of them at once
+FROM_TEXT = '        profile = cls()\n        profile.tree = c2profile_parser.parse(source)\n        return profile\n'
+PARSER_DEF = 'c2profile_parser = Lark.open("c2profile.lark", parser="lalr", rel_to=__file__, maybe_placeholders=False)\n'
+INIT_TREE = '        self.tree = Tree(self.__name__, [])\n'
+IMPORT_FT = (F, "import collections\n", "import collections\nimport copy\nimport functools\n")
+T("C11", "twin-from-text-tree-through-temporary-and-helper", F, "", "", edits=[
+    (F, PARSER_DEF, PARSER_DEF + '\n\ndef _parse_profile_text(source):\n    tree = c2profile_parser.parse(source)\n    return tree\n'),
+    (F, FROM_TEXT, '        profile = cls()\n        parsed = _parse_profile_text(source)\n        profile.tree = parsed\n        return profile\n')])
+T("C11", "twin-from-text-deep-copy-of-memoised-parse", F, "", "", edits=[
+    IMPORT_FT,
+    (F, PARSER_DEF, PARSER_DEF + '\n\n@functools.lru_cache(maxsize=16)\ndef _parsed(source):\n    return c2profile_parser.parse(source)\n'),
+    (F, FROM_TEXT, '        profile = cls()\n        profile.tree = copy.deepcopy(_parsed(source))\n        return profile\n')])
+T("C11", "twin-from-text-parser-from-memoised-getter", F, "", "", edits=[
+    IMPORT_FT,
+    (F, PARSER_DEF, PARSER_DEF + '\n\n@functools.lru_cache(maxsize=None)\ndef get_parser():\n    return c2profile_parser\n'),
+    (F, FROM_TEXT, '        profile = cls()\n        profile.tree = get_parser().parse(source)\n        return profile\n')])
+T("C11", "twin-initial-tree-children-list-call", F, INIT_TREE, '        children = list()\n        self.tree = Tree(self.__name__, children)\n')
+M("C11", "from-text-tree-from-module-cache-dict", F, "", "", "C11.R10", edits=[
+    (F, PARSER_DEF, PARSER_DEF + '_PARSED = {}\n'),
+    (F, FROM_TEXT, '        profile = cls()\n        if source not in _PARSED:\n            _PARSED[source] = c2profile_parser.parse(source)\n        profile.tree = _PARSED[source]\n        return profile\n')])
+M("C11", "from-text-tree-setdefault-in-module-cache", F, "", "", "C11.R10", edits=[
+    (F, PARSER_DEF, PARSER_DEF + '_TREES = dict()\n'),
+    (F, FROM_TEXT, '        profile = cls()\n        tree = _TREES.get(source)\n        if tree is None:\n            tree = _TREES[source] = c2profile_parser.parse(source)\n        profile.tree = tree\n        return profile\n')])
+M("C11", "from-text-tree-memoised-static-method", F, "", "", "C11.R10", edits=[
+    IMPORT_FT,
+    (F, '    @classmethod\n    def from_text(cls, source: str) -> "C2Profile":\n',
+     '    @staticmethod\n    @functools.cache\n    def _tree_of(source: str) -> Tree:\n        return c2profile_parser.parse(source)\n\n    @classmethod\n    def from_text(cls, source: str) -> "C2Profile":\n'),
+    (F, FROM_TEXT, '        profile = cls()\n        profile.tree = C2Profile._tree_of(source)\n        return profile\n')])
+M("C11", "initial-tree-shared-children-list", F, "", "", "C11.R10", edits=[
+    (F, PARSER_DEF, PARSER_DEF + '_NO_STATEMENTS = []\n'),
+    (F, INIT_TREE, '        self.tree = Tree(self.__name__, _NO_STATEMENTS)\n')])
+M("C11", "initial-tree-default-argument", F, "", "", "C11.R10", edits=[
+    (F, '    def __init__(self, **kwargs):\n        #: The AST tree\n' + INIT_TREE,
+     '    def __init__(self, _tree=Tree("ConfigBlock", []), **kwargs):\n        #: The AST tree\n        _tree.data = self.__name__\n        self.tree = _tree\n')])
+
+# R11: every step given to the data-transform builder is added - a statement name, or a (statement, argument) pair as a tuple or
+# as a list.  How the pair is recognised (length, both sequence types, an abstract sequence type, unpacking under try) does not
+# matter; a test that lets one of the forms fall through to the next step without add_step / add_termination does
+PAIR_TEST = '            elif len(option) == 2:\n'
+NOARG_TEST = '            if option in ("base64", "base64url", "mask", "netbios", "netbiosu"):\n'
+LOOP_HEAD = '        for option in steps:\n' + NOARG_TEST
+T("C11", "twin-pair-step-list-or-tuple-of-two", F, PAIR_TEST, '            elif isinstance(option, (list, tuple)) and len(option) == 2:\n')
+T("C11", "twin-pair-step-any-sequence-but-text", F, "", "", edits=[
+    (F, "import collections\n", "import collections\nimport collections.abc\n"),
+    (F, PAIR_TEST, '            elif isinstance(option, collections.abc.Sequence) and not isinstance(option, (str, bytes)) and len(option) == 2:\n')])
+T("C11", "twin-pair-step-length-flag", F, LOOP_HEAD, '        for option in steps:\n            is_pair = not isinstance(option, str) and len(option) == 2\n' + NOARG_TEST, edits=None)
+T("C11", "twin-steps-names-first-then-unpack", F, "", "", edits=[
+    (F, PAIR_TEST + '                option, value = option\n', '            elif not isinstance(option, str):\n                option, value = option\n')])
+M("C11", "pair-step-tuple-and-length", F, PAIR_TEST, '            elif isinstance(option, tuple) and len(option) == 2:\n', "C11.R11")
+M("C11", "pair-step-exact-type-tuple", F, PAIR_TEST, '            elif type(option) is tuple:\n', "C11.R11")
+M("C11", "pair-step-lists-skipped-up-front", F, LOOP_HEAD,
+  '        for option in steps:\n            if not isinstance(option, (str, tuple)):\n                continue\n' + NOARG_TEST, "C11.R11")
+M("C11", "pair-step-flag-tuple-only", F, "", "", "C11.R11", edits=[
+    (F, LOOP_HEAD, '        for option in steps:\n            is_pair = isinstance(option, tuple) and len(option) == 2\n' + NOARG_TEST),
+    (F, PAIR_TEST, '            elif is_pair:\n')])
+M("C11", "name-steps-skipped-unless-bytes", F, LOOP_HEAD,
+  '        for option in steps:\n            if isinstance(option, str) and not option.isidentifier():\n                continue\n            if isinstance(option, str) and len(option) < 5:\n                continue\n' + NOARG_TEST, "C11.R11")
+# the pairs are brought into one form first: the loop no longer runs over the steps as given (undecided, not an alarm)
+T("C11", "twin-steps-normalised-to-tuples-first", F, "", "", edits=[
+    (F, '        steps = steps or []\n' + LOOP_HEAD,
+     '        steps = [tuple(step) if isinstance(step, list) else step for step in steps or []]\n' + LOOP_HEAD),
+    (F, PAIR_TEST, '            elif isinstance(option, tuple):\n')])
+PAIR_BODY = (PAIR_TEST + '                option, value = option\n                if option in ("header", "parameter"):\n'
+             '                    self.add_termination(option, value)\n                else:\n                    self.add_step(option, value)\n')
+T("C11", "twin-pair-step-unpacked-under-try", F, PAIR_BODY,
+  '            else:\n                try:\n                    name, value = option\n                except (TypeError, ValueError):\n                    continue\n'
+  '                if name in ("header", "parameter"):\n                    self.add_termination(name, value)\n                else:\n                    self.add_step(name, value)\n')
+T("C11", "twin-pair-step-guard-style", F, PAIR_BODY,
+  '            if isinstance(option, str) or len(option) != 2:\n                continue\n            name, value = option\n'
+  '            adder = self.add_termination if name in ("header", "parameter") else self.add_step\n            adder(name, value)\n')
+M("C11", "pair-step-guard-style-not-a-tuple", F, PAIR_BODY,
+  '            if not isinstance(option, tuple) or len(option) != 2:\n                continue\n            name, value = option\n'
+  '            adder = self.add_termination if name in ("header", "parameter") else self.add_step\n            adder(name, value)\n', "C11.R11")
+M("C11", "pair-step-enumerate-loop-tuple-only", F, "", "", "C11.R11", edits=[
+    (F, LOOP_HEAD, '        for position, option in enumerate(steps):\n' + NOARG_TEST),
+    (F, PAIR_TEST, '            elif type(option) in (tuple,) and len(option) > 1:\n')])
